@@ -78,7 +78,7 @@ class AmpComp(ugn.PureUGenMixin, ugn.UGen):
         if self.rate == 'audio':
             return self._check_sr_as_first_input()
         else:
-            return None
+            return self._check_valid_inputs()
 
 
 class AmpCompA(AmpComp):
